@@ -1,7 +1,8 @@
-(* C53 -- property theorems (statements only; proofs are in C53ProofsA.v / C53ProofsB.v). *)
+(* C53 -- property theorems, part 1 (statements only; proofs are in C53ProofsA.v): the oracle and the shape functions.
+   Part 2 (one element): Properties_C53_elem.v; part 3 (assembly of the mesh): Properties_C53_asm.v. *)
 From Coq Require Import ZArith QArith Reals List.
 From Coquelicot Require Import Coquelicot.
-From C53 Require Import C53Spec C53Model C53ProofsA C53ProofsB.
+From C53 Require Import C53Spec C53Model C53ProofsA.
 Import ListNotations.
 Local Open Scope R_scope.
 
@@ -39,104 +40,3 @@ Theorem C53_derivative_consistency :
 Proof. exact (conj lin_deriv (conj quad_deriv cub_deriv)). Qed.
 Print Assumptions C53_derivative_consistency.
 
-(* the isoparametric map of an element with the equally spaced nodes the code builds is affine, its jacobian dr/2 *)
-Theorem C53_isoparametric_geometry : forall r0 dr x,
-  (interp RNum (lin_elem RNum) (elem_radii RNum (lin_elem RNum) r0 dr) x = r0 + dr * (x + 1) / 2 /\
-   dinterp RNum (lin_elem RNum) (elem_radii RNum (lin_elem RNum) r0 dr) x = dr / 2) /\
-  (interp RNum (quad_elem RNum) (elem_radii RNum (quad_elem RNum) r0 dr) x = r0 + dr * (x + 1) / 2 /\
-   dinterp RNum (quad_elem RNum) (elem_radii RNum (quad_elem RNum) r0 dr) x = dr / 2) /\
-  (interp RNum (cub_elem RNum) (elem_radii RNum (cub_elem RNum) r0 dr) x = r0 + dr * (x + 1) / 2 /\
-   dinterp RNum (cub_elem RNum) (elem_radii RNum (cub_elem RNum) r0 dr) x = dr / 2).
-Proof. intros r0 dr x. exact (conj (lin_geom r0 dr x) (conj (quad_geom r0 dr x) (cub_geom r0 dr x))). Qed.
-Print Assumptions C53_isoparametric_geometry.
-
-(* 3. Gauss rules: exactness degree 2n-1 (sharp for the 2-point rule); the decimal 4-point rule within 1e-14 *)
-Theorem C53_gauss_linear : exact_to_degree lin_gps_R 3 /\ ~ exact_to_degree lin_gps_R 4.
-Proof. exact (conj lin_gauss lin_gauss_sharp). Qed.
-Print Assumptions C53_gauss_linear.
-
-Theorem C53_gauss_quadratic : exact_to_degree quad_gps_R 5.
-Proof. exact quad_gauss. Qed.
-Print Assumptions C53_gauss_quadratic.
-
-Theorem C53_gauss_cubic_decimal : exact_to_degree_within (cub_gps RNum) 7 (1 / 10 ^ 14).
-Proof. exact cub_gauss. Qed.
-Print Assumptions C53_gauss_cubic_decimal.
-
-(* 4. the stiffness block assembled at a Gauss point is the tangent of the inner forces of that Gauss point
-      (any 3x3 tangent K, any nodal radii with non-vanishing jacobian and radius) *)
-Theorem C53_tangent_consistency_linear : forall K0 K1 K2 K3 K4 K5 K6 K7 K8 r0 r1 u0 u1 ezz twopi x w,
-  let K := [K0;K1;K2;K3;K4;K5;K6;K7;K8] in let rs := [r0;r1] in
-  dinterp RNum (lin_elem RNum) rs x <> 0 -> interp RNum (lin_elem RNum) rs x <> 0 ->
-  gp_forces RNum (lin_elem RNum) false K rs [u0;u1] ezz twopi (x, w)
-  = mvec RNum (gp_stiffness RNum (lin_elem RNum) false K rs twopi (x, w)) [u0;u1;ezz].
-Proof. exact lin_tangent. Qed.
-Print Assumptions C53_tangent_consistency_linear.
-
-Theorem C53_tangent_consistency_quadratic : forall K0 K1 K2 K3 K4 K5 K6 K7 K8 r0 r1 r2 u0 u1 u2 ezz twopi x w,
-  let K := [K0;K1;K2;K3;K4;K5;K6;K7;K8] in let rs := [r0;r1;r2] in
-  dinterp RNum (quad_elem RNum) rs x <> 0 -> interp RNum (quad_elem RNum) rs x <> 0 ->
-  gp_forces RNum (quad_elem RNum) false K rs [u0;u1;u2] ezz twopi (x, w)
-  = mvec RNum (gp_stiffness RNum (quad_elem RNum) false K rs twopi (x, w)) [u0;u1;u2;ezz].
-Proof. exact quad_tangent. Qed.
-Print Assumptions C53_tangent_consistency_quadratic.
-
-Theorem C53_tangent_consistency_cubic : forall K0 K1 K2 K3 K4 K5 K6 K7 K8 r0 r1 r2 r3 u0 u1 u2 u3 ezz twopi x w,
-  let K := [K0;K1;K2;K3;K4;K5;K6;K7;K8] in let rs := [r0;r1;r2;r3] in
-  dinterp RNum (cub_elem RNum) rs x <> 0 -> interp RNum (cub_elem RNum) rs x <> 0 ->
-  gp_forces RNum (cub_elem RNum) false K rs [u0;u1;u2;u3] ezz twopi (x, w)
-  = mvec RNum (gp_stiffness RNum (cub_elem RNum) false K rs twopi (x, w)) [u0;u1;u2;u3;ezz].
-Proof. exact cub_tangent. Qed.
-Print Assumptions C53_tangent_consistency_cubic.
-
-(* 5. patch test: under a uniform stress (s, z, s) the assembled inner forces of an element are the exact boundary
-      terms 2 pi s (-r0, 0, .., r0+dr) and the exact axial resultant, for every quadrature rule that integrates
-      polynomials up to the element's degree *)
-Theorem C53_patch_test_linear : forall x0 w0 x1 w1, w0 + w1 = 2 -> w0 * x0 + w1 * x1 = 0 ->
-  forall r0 dr s z twopi, dr <> 0 ->
-  elem_forces_of_stress RNum (lin_elem RNum) false [(x0, w0); (x1, w1)] (elem_radii RNum (lin_elem RNum) r0 dr) twopi (s, z, s)
-  = [twopi * s * (- r0); twopi * s * (r0 + dr); twopi * z * (r0 * dr + dr * dr / 2)].
-Proof. exact lin_patch. Qed.
-Print Assumptions C53_patch_test_linear.
-
-Theorem C53_patch_test_quadratic : forall x0 w0 x1 w1 x2 w2, w0 + w1 + w2 = 2 -> w0 * x0 + w1 * x1 + w2 * x2 = 0 ->
-  w0 * (x0 * x0) + w1 * (x1 * x1) + w2 * (x2 * x2) = 2 / 3 ->
-  forall r0 dr s z twopi, dr <> 0 ->
-  elem_forces_of_stress RNum (quad_elem RNum) false [(x0, w0); (x1, w1); (x2, w2)] (elem_radii RNum (quad_elem RNum) r0 dr) twopi (s, z, s)
-  = [twopi * s * (- r0); 0; twopi * s * (r0 + dr); twopi * z * (r0 * dr + dr * dr / 2)].
-Proof. exact quad_patch. Qed.
-Print Assumptions C53_patch_test_quadratic.
-
-Theorem C53_patch_test_cubic : forall x0 w0 x1 w1 x2 w2 x3 w3,
-  w0 + w1 + w2 + w3 = 2 -> w0 * x0 + w1 * x1 + w2 * x2 + w3 * x3 = 0 ->
-  w0 * (x0 * x0) + w1 * (x1 * x1) + w2 * (x2 * x2) + w3 * (x3 * x3) = 2 / 3 ->
-  w0 * (x0 * x0 * x0) + w1 * (x1 * x1 * x1) + w2 * (x2 * x2 * x2) + w3 * (x3 * x3 * x3) = 0 ->
-  forall r0 dr s z twopi, dr <> 0 ->
-  elem_forces_of_stress RNum (cub_elem RNum) false [(x0, w0); (x1, w1); (x2, w2); (x3, w3)]
-    (elem_radii RNum (cub_elem RNum) r0 dr) twopi (s, z, s)
-  = [twopi * s * (- r0); 0; 0; twopi * s * (r0 + dr); twopi * z * (r0 * dr + dr * dr / 2)].
-Proof. exact cub_patch. Qed.
-Print Assumptions C53_patch_test_cubic.
-
-(* with the decimal 4-point rule of the source: same form, coefficients within 1e-14 of the exact ones *)
-Theorem C53_patch_test_cubic_decimal :
-  (forall r0 dr s z twopi, dr <> 0 ->
-    elem_forces_of_stress RNum (cub_elem RNum) false (cub_gps RNum) (elem_radii RNum (cub_elem RNum) r0 dr) twopi (s, z, s)
-    = [twopi * s * (r0 * cub_alpha 0 + dr * cub_beta 0); twopi * s * (r0 * cub_alpha 1 + dr * cub_beta 1);
-       twopi * s * (r0 * cub_alpha 2 + dr * cub_beta 2); twopi * s * (r0 * cub_alpha 3 + dr * cub_beta 3);
-       twopi * z * (dr / 2) * (r0 * cub_gamma + dr / 2 * (cub_gamma + cub_delta))]) /\
-  (let e := 1 / 10 ^ 14 in
-   Rabs (cub_alpha 0 - -1) <= e /\ Rabs (cub_alpha 1) <= e /\ Rabs (cub_alpha 2) <= e /\ Rabs (cub_alpha 3 - 1) <= e /\
-   Rabs (cub_beta 0) <= e /\ Rabs (cub_beta 1) <= e /\ Rabs (cub_beta 2) <= e /\ Rabs (cub_beta 3 - 1) <= e /\
-   Rabs (cub_gamma - 2) <= e /\ Rabs cub_delta <= e).
-Proof. exact (conj cub_patch_decimal_form cub_patch_decimal_bounds). Qed.
-Print Assumptions C53_patch_test_cubic_decimal.
-
-(* 6. the variant that evaluates the test shape functions at the physical radius (PipeCubicElement of the
-      pinned tree, finding cubic-sf-at-radius) fails the patch test: the theorems above discriminate it *)
-Theorem C53_cubic_sf_at_radius_fails_patch_test :
-  exists r0 dr s, dr <> 0 /\
-    Rabs (nth 1 (elem_forces_of_stress RNum (cub_elem RNum) true (cub_gps RNum) (elem_radii RNum (cub_elem RNum) r0 dr) 1 (s, 0, s)) 0
-          - 0) >= 1 / 2.
-Proof. exact cub_at_rg_fails_patch. Qed.
-Print Assumptions C53_cubic_sf_at_radius_fails_patch_test.
